@@ -1,4 +1,73 @@
-(* C05 — placeholder until TransportFacts is written *)
-From SV Require Import Bytes Client Transport.
-Theorem C05_placeholder : True. Proof. exact I. Qed.
-Print Assumptions C05_placeholder.
+(* C05 — ManageSieve replies are read identically however the bytes are segmented.
+
+   Model: ms/Client.v (every public operation as an interaction tree over read-line /
+   read-block / send), ms/Transport.v (concrete semantics [interp]: read buffer + pending
+   recv chunks, recv limited to the requested size; stream semantics [interp_s]).
+   This file holds statements only; proofs are in ms/TransportFacts.v. *)
+From Coq Require Import String.
+From Coq Require Import List NArith Bool Lia.
+From SV Require Import Bytes Client Transport TransportFacts Session.
+Import ListNotations.
+Open Scope N_scope.
+
+(* Full statement: for every client program (hence every operation, with any arguments, from
+   any client state), every reactive peer, and every two ways of cutting the peer's bytes into
+   non-empty recv() chunks, the outcome (result or exception, client fields) is the same, and
+   unless the call ended in a read timeout the bytes left for the next call are the same. *)
+Theorem C05_segmentation :
+  forall (S : Type) (react : S -> bytes -> S * bytes) (on_connect on_tls : S -> option (S * bytes))
+         (seg1 seg2 : nat -> bytes -> list bytes) (p : prog) (w1 w2 : world S),
+    valid_seg seg1 -> valid_seg seg2 ->
+    Forall nonempty (w_chunks S w1) -> Forall nonempty (w_chunks S w2) ->
+    abs S w1 = abs S w2 ->
+    fst (interp S react on_connect on_tls seg1 p w1) = fst (interp S react on_connect on_tls seg2 p w2)
+    /\ (is_timeout (fst (interp S react on_connect on_tls seg1 p w1)) = false ->
+        abs S (snd (interp S react on_connect on_tls seg1 p w1))
+        = abs S (snd (interp S react on_connect on_tls seg2 p w2))).
+Proof. exact TransportFacts.segmentation_independent. Qed.
+Print Assumptions C05_segmentation.
+
+(* Whole sessions: as long as no call ends in a read timeout, every result of an arbitrary
+   sequence of public operations is independent of the segmentation — "the client's ability
+   to run the next operation correctly". *)
+Theorem C05_sessions :
+  forall (S : Type) (react : S -> bytes -> S * bytes) (on_connect on_tls : S -> option (S * bytes))
+         (seg1 seg2 : nat -> bytes -> list bytes) (fuel : nat) (ops : list op) (st : cstate)
+         (w1 w2 : world S),
+    valid_seg seg1 -> valid_seg seg2 ->
+    Forall nonempty (w_chunks S w1) -> Forall nonempty (w_chunks S w2) ->
+    abs S w1 = abs S w2 ->
+    forallb (fun o => negb (is_timeout o))
+            (fst (fst (run_ops S react on_connect on_tls seg1 fuel ops st w1))) = true ->
+    fst (fst (run_ops S react on_connect on_tls seg1 fuel ops st w1))
+    = fst (fst (run_ops S react on_connect on_tls seg2 fuel ops st w2)).
+Proof. exact TransportFacts.sessions_independent. Qed.
+Print Assumptions C05_sessions.
+
+(* A literal is consumed as exactly n octets, in however many segments it arrives. *)
+Theorem C05_literal_exact :
+  forall (S : Type) (react : S -> bytes -> S * bytes) (on_connect on_tls : S -> option (S * bytes))
+         (seg : nat -> bytes -> list bytes) (st : cstate) (n : N) (k : bytes -> prog) (w : world S),
+    valid_seg seg -> Forall nonempty (w_chunks S w) ->
+    n <= blen (w_buf S w ++ concat (w_chunks S w)) ->
+    fst (interp S react on_connect on_tls seg (RdBlock st n k) w)
+    = fst (interp_s S react on_connect on_tls
+                    (k (firstn (N.to_nat n) (w_buf S w ++ concat (w_chunks S w))))
+                    (s_set S (skipn (N.to_nat n) (w_buf S w ++ concat (w_chunks S w))) (abs S w))).
+Proof. exact TransportFacts.literal_exact. Qed.
+Print Assumptions C05_literal_exact.
+
+(* Non-vacuity: a GETSCRIPT reply whose literal body contains protocol look-alikes, delivered
+   in seven chunks that cut the literal header, the body and the CRLFs, gives the script. *)
+Example C05_example_getscript :
+  let reply := bs "{12}" ++ CRLF ++ bs "OK" ++ CRLF ++ bs "{5}" ++ CRLF ++ bs "x" ++ CRLF ++ CRLF
+               ++ bs "OK ""done""" ++ CRLF in
+  let chunks := [firstn 2 reply; firstn 3 (skipn 2 reply); firstn 4 (skipn 5 reply);
+                 firstn 1 (skipn 9 reply); firstn 6 (skipn 10 reply); firstn 3 (skipn 16 reply);
+                 skipn 19 reply] in
+  concat chunks = reply /\
+  fst (interp unit (fun u _ => (u, [])) (fun _ => None) (fun _ => None) (fun _ _ => [])
+              (getscript 100 (bs "s") (set_auth true c_init) finish)
+              (mkW unit tt [] chunks 0 1 false []))
+  = ODone (VBytes (bs "OK" ++ [10] ++ bs "{5}" ++ [10] ++ bs "x")) (set_auth true c_init).
+Proof. vm_compute. split; reflexivity. Qed.
